@@ -179,6 +179,11 @@ class CallMixin:
             return f'((int64_t)(({self.ex(args[1])}) - ({self.ex(args[0])})))'
         if name in ('make_optional',):
             return f'(({self.ctype(rt)}){{1, {self.ex(args[0])}}})'
+        if name == 'countl_zero' and len(args) == 1:
+            w = {'uint32_t': 32, 'uint64_t': 64, 'uint8_t': 8, 'uint16_t': 16}.get(self.ctype(self.tyof(args[0]).strip_ref()))
+            if w is None:
+                raise LoweringError('std::countl_zero on ' + repr(self.tyof(args[0])))
+            return f'cxx_countl_zero(((uint64_t)({self.ex(args[0])})), {w})'
         if name == 'isnan':
             return f'__CPROVER_isnand({self.ex(args[0])})'
         raise LoweringError(f'no model for library function {name}() in {self.cur["name"]}')
